@@ -226,12 +226,23 @@ def r4_order(repo):
         st = searches[0]._parent
         cname = st.targets[0].id if isinstance(st, ast.Assign) and isinstance(st.targets[0], ast.Name) else None
         sets = [n for n in iter_own_nodes(fn) if isinstance(n, ast.Assign) and src(n.targets[0]) == "self.crash_msg"]
-        set_ok = len(sets) == 1 and (cname, True) in [(src(t), p) for t, p in flat_guards(sets[0])] and \
-            src(sets[0].value) == outp
+        call_txt = src(searches[0])
+
+        def crash(node, want):
+            """is `node` on a path where the crash pattern matched (want=True) / did not match (want=False)?  The test
+            may be written on the result local or on the call, as truthiness or as `is (not) None`"""
+            for t, p in flat_guards(node):
+                tt = src(t)
+                for subject in [x for x in (cname, call_txt) if x]:
+                    if tt == subject and p == want:
+                        return True
+                    if tt == "%s is None" % subject and p == (not want):
+                        return True
+            return False
+        set_ok = len(sets) == 1 and crash(sets[0], True) and src(sets[0].value) == outp
         fguard = [(src(t), p) for t, p in flat_guards(fd)]
-        rets_in = [n for n in iter_own_nodes(fn) if isinstance(n, ast.Return) and
-                   (cname, True) in [(src(t), p) for t, p in flat_guards(n)]]
-        ok = set_ok and (cname, False) in fguard and len(rets_in) == 1 and \
+        rets_in = [n for n in iter_own_nodes(fn) if isinstance(n, ast.Return) and crash(n, True)]
+        ok = set_ok and crash(fd, False) and len(rets_in) == 1 and \
             g.dominates(g.node(st), g.node(fd))
         msg = ("crash test first: crash_msg = output under the crash match (%s), return without parsing, findall only "
                "when there was no crash match (guards of findall: %s)" % (set_ok, fguard))
